@@ -65,6 +65,8 @@ struct Scn {
     std::vector<std::string> later_stages; // mode 0: stages deeper than the expected one (must never be what is delivered)
     std::string label_extra;
     bool has2 = false, second_zlib = false; std::string expect2; // a second, pipelined response on the same connection with another coding (the decompressor must be set up afresh)
+    unsigned long long expect_total = 0; // mode 3: only the number of delivered bytes is compared (multi-megabyte bodies)
+    long clock_sec = 0;                  // mode 3: the instant the frozen clock shows during the run
     int pre = 0;                         // body-less exchanges in front (HEAD / 304 / 204 answered with a Content-Encoding field): the decompressor they set up must not leak into, or out of, the next response
     std::string label;                   // class label for evidence, e.g. "gzip,deflate_raw/chunked"
     std::vector<size_t> cuts;
@@ -72,21 +74,24 @@ struct Scn {
 static std::string scn_text(const Scn &s) {
     auto H = [](const std::string &x) { return x.empty() ? std::string("-") : vc::hex(x); };
     std::string t = "c07 " + std::to_string(s.pers) + " " + std::to_string(s.dir) + " " + std::to_string(s.mode) + " " + std::to_string(s.layer_limit) + " " + std::to_string(s.lzma_layers) + " " + std::to_string(s.bomb) + " " + std::to_string(s.body_at) + " " + std::to_string(s.body_len) + " " + std::to_string(s.multi_piece_framing) + "\n";
-    t += "label " + s.label + "\nreq " + H(s.rq) + "\nres " + H(s.rs) + "\nexpect " + (s.mode == 2 ? std::string("-") : H(s.expect)) + "\n";
+    t += "label " + s.label + "\nreq " + H(s.rq) + "\nres " + H(s.rs) + "\nexpect " + (s.mode >= 2 ? std::string("-") : H(s.expect)) + "\n";
     for (auto &l : s.later_stages) t += "later " + H(l) + "\n";
     if (s.has2) t += "expect2 " + H(s.expect2) + " " + std::to_string(s.second_zlib) + "\n";
     if (s.pre) t += "pre " + std::to_string(s.pre) + "\n";
+    if (s.mode == 3) t += "total " + std::to_string(s.expect_total) + " " + std::to_string(s.clock_sec) + "\n";
     t += "cuts"; for (size_t c : s.cuts) t += " " + std::to_string(c); t += "\n";
     const std::string &w = s.dir ? s.rq : s.rs; t += "# head \"" + vc::esc(w.substr(0, s.body_at), 400) + "\" body " + std::to_string(s.body_len) + " bytes, expected delivery " + std::to_string(s.expect.size()) + " bytes\n";
     return t;
 }
 
+extern "C" long g_verif_clock_sec;
 struct Obs { int first = 1; int dir; bool keep; std::string got; unsigned long long total = 0; long limit; std::string bound_fail; int body_tx = 0; std::string got2; int body_tx2 = 0; size_t pre_body = 0; };
 static std::pair<std::string, std::string> run_scn(const Scn &s) {
     vdrv::Config c; c.personality = s.pers; c.req_decomp = s.dir; c.res_decomp = 1; c.layers = s.layer_limit; c.lzma_layers = s.lzma_layers; c.bomb = s.bomb;
-    vdrv::Plan p; vdrv::Options o; o.dump = false; o.keep_body = false; o.keep_data = s.mode != 2; o.max_keep = 1 << 16; o.logs = true;
+    vdrv::Plan p; vdrv::Options o; o.dump = false; o.keep_body = false; o.keep_data = s.mode < 2; o.max_keep = 1 << 16; o.logs = true;
+    struct ClockGuard { long old; ClockGuard(long v) : old(g_verif_clock_sec) { if (v) g_verif_clock_sec = v; } ~ClockGuard() { g_verif_clock_sec = old; } } clock_guard(s.mode == 3 ? s.clock_sec : 0);
     vdrv::Session ss(c, p, o);
-    Obs ob; ob.dir = s.dir; ob.keep = s.mode != 2; ob.limit = s.bomb < 0 ? 1048576 : s.bomb; ob.first = 1 + s.pre; ss.user = &ob;
+    Obs ob; ob.dir = s.dir; ob.keep = s.mode < 2; ob.limit = s.bomb < 0 ? 1048576 : s.bomb; ob.first = 1 + s.pre; ss.user = &ob;
     ss.observer = [](vdrv::Session *se, const vdrv::Event &e, htp_tx_t *tx) {
         Obs *b = (Obs *)se->user; int hook = b->dir ? vdrv::H_REQ_BODY : vdrv::H_RES_BODY;
         if (e.hook != hook || e.null_data || !tx) return;
@@ -113,6 +118,7 @@ static std::pair<std::string, std::string> run_scn(const Scn &s) {
     if (A.mode == "c05" || A.mode == "c06") { std::string pre = A.mode == "c05" ? "C05:" : "C06:"; for (auto &v : r.violations) if (v.rfind(pre, 0) == 0) return {v, "stream monitor: " + v + " (coded body scenario " + s.label + ")"}; return {"", ""}; }
     if (!ob.bound_fail.empty()) return {"bomb_bound_exceeded:" + s.label, ob.bound_fail};
     if (s.mode == 2) return {"", ""};
+    if (s.mode == 3) { if (ob.total != s.expect_total) return {"fidelity_total:" + s.label, "delivered " + std::to_string(ob.total) + " bytes of a " + std::to_string(s.expect_total) + "-byte body (frozen clock showing second " + std::to_string(s.clock_sec) + ")"}; return {"", ""}; }
     if (s.pre && ob.pre_body) return {"body_delivered_for_bodyless_response:" + s.label, std::to_string(ob.pre_body) + " body bytes were delivered for a response to HEAD / a 204 / a 304 that has no body"};
     bool cut_in_second = false; for (size_t cpos : s.cuts) if (cpos > s.body_at + s.body_len) cut_in_second = true; std::string attr2 = (t3 && s.second_zlib && cut_in_second) ? "+T3" : "";
     if (s.has2 && ob.got == s.expect && ob.got2 != s.expect2) { size_t d = 0; while (d < ob.got2.size() && d < s.expect2.size() && ob.got2[d] == s.expect2[d]) d++; return {"fidelity_second_response:" + s.label + attr2, "the second (pipelined) response delivered " + std::to_string(ob.got2.size()) + " bytes, expected " + std::to_string(s.expect2.size()) + "; first difference at offset " + std::to_string(d)}; }
@@ -257,6 +263,27 @@ static std::optional<rcx::Fail> all_chunkings(Scn &s, bool counting) {
     return {};
 }
 
+// multi-megabyte bodies (more than 256 output buffers, so that the periodic time check of the decompressor callback runs) under a frozen clock that shows
+// different instants: nothing may depend on the instant itself. Request direction (request decompression on) and response direction.
+static Scn gen_big_body() {
+    Scn s; s.pers = rcx::range(0, 9); s.mode = 3; s.dir = rcx::chance(2, 3) ? 1 : 0;
+    std::string unit; int ul = rcx::range(40, 90); for (int i = 0; i < ul; i++) unit += (char)rcx::range(32, 126); size_t N = (size_t)rcx::range(2200000, 3300000); std::string payload; payload.reserve(N + unit.size()); while (payload.size() < N) payload += unit; payload.resize(N);
+    int k = rcx::range(0, 1); std::string body = encode(k, payload); static const long CL[] = {2000, 1000000, 1700000000, 3000, 2147}; s.clock_sec = CL[rcx::range(0, 4)]; s.expect_total = N;
+    build_streams(s, token_of(k), body, rcx::range(0, 1)); s.label = std::string("big_body_") + KN[k] + (s.dir ? "/request" : "/response"); return s;
+}
+static void campaign_big_bodies() {
+    int cases = A.thorough() ? 24 : 3;
+    rcx::run("big_bodies_frozen_clock", vc::mix(A.seed * 241 + A.shard + 2700), cases, 40, [&]() -> std::optional<rcx::Fail> {
+        static int shrink_runs = 0; if (rcx::shrinking() && ++shrink_runs > 6) return {}; // every candidate costs seconds: a handful of shrink steps is enough (the label names the class)
+        Scn s = gen_big_body(); bool counting = !rcx::shrinking(); const std::string &w = s.dir ? s.rq : s.rs;
+        if (counting) { g_stats.cls("big_body_scenarios"); g_stats.cls(s.label); g_stats.nt(vc::fnv1a(s.label, (uint64_t)s.expect_total)); }
+        s.cuts.clear(); if (auto f = verdict(s, counting)) return f;
+        s.cuts = {s.body_at + s.body_len / 3, s.body_at + 2 * s.body_len / 3}; if (auto f = verdict(s, counting)) return f;
+        s.cuts.clear(); for (size_t c = s.body_at + 700; c < w.size(); c += 700) s.cuts.push_back(c); if (auto f = verdict(s, counting)) return f;
+        return {};
+    });
+}
+
 static void campaign_fidelity() {
     int cases = A.thorough() ? 4000 : 400;
     rcx::run("decompression_fidelity", vc::mix(A.seed * 227 + A.shard), cases, 60, [&]() -> std::optional<rcx::Fail> {
@@ -296,6 +323,7 @@ static int replay(const std::string &path) {
         if (l.rfind("c07 ", 0) == 0) { int mp = 0; sscanf(l.c_str() + 4, "%d %d %d %d %d %ld %zu %zu %d", &s.pers, &s.dir, &s.mode, &s.layer_limit, &s.lzma_layers, &s.bomb, &s.body_at, &s.body_len, &mp); s.multi_piece_framing = mp; }
         else if (l.rfind("label ", 0) == 0) s.label = l.substr(6); else if (l.rfind("req ", 0) == 0) s.rq = U(l.substr(4)); else if (l.rfind("res ", 0) == 0) s.rs = U(l.substr(4)); else if (l.rfind("expect ", 0) == 0) s.expect = U(l.substr(7)); else if (l.rfind("later ", 0) == 0) s.later_stages.push_back(U(l.substr(6))); else if (l.rfind("expect2 ", 0) == 0) { s.has2 = true; std::string r = l.substr(8); size_t sp = r.find(' '); s.expect2 = U(r.substr(0, sp)); if (sp != std::string::npos) s.second_zlib = atoi(r.c_str() + sp + 1) != 0; }
         else if (l.rfind("pre ", 0) == 0) s.pre = atoi(l.c_str() + 4);
+        else if (l.rfind("total ", 0) == 0) sscanf(l.c_str() + 6, "%llu %ld", &s.expect_total, &s.clock_sec);
         else if (l.rfind("cuts", 0) == 0) { const char *c = l.c_str() + 4; char *end; for (;;) { long n = strtol(c, &end, 10); if (end == c) break; s.cuts.push_back((size_t)n); c = end; } }
     }
     auto r = run_scn(s);
@@ -311,6 +339,7 @@ int main(int argc, char **argv) {
     campaign_fidelity();
     campaign_passthrough();
     campaign_bombs();
+    if (A.mode.empty()) campaign_big_bodies();
     g_stats.write();
     return g_stats.failures.empty() ? 0 : 1;
 }
